@@ -483,7 +483,6 @@ func runC07(w *World, r *Report, tier string) {
 	}
 }
 
-
 // iqClaimAtomic (C07.R1; shared as C05.R9): in Router.route — or in helpers and literals that run only on its behalf —
 // every delete of a pending IQ entry lies in the same write-locked critical section as a lookup of it. Two responses
 // with the same id that both find the entry would both send on and close its channel: the second one panics.
